@@ -7,7 +7,7 @@ LEAN_MODULE = 'ParsecVerif.Props.C35'
 DRIVERS = ['pv_C35']
 THEOREMS = ['ParsecVerif.C35.C35_hbb_conservation', 'ParsecVerif.C35.C35_hbb_never_lost', 'ParsecVerif.C35.C35_hbb_best',
             'ParsecVerif.C35.C35_macro_is_micro',
-            'ParsecVerif.C35.C35_heap_invariant', 'ParsecVerif.C35.C35_heap_shape', 'ParsecVerif.C35.C35_heap_nav_defined',
+            'ParsecVerif.C35.C35_heap_invariant', 'ParsecVerif.C35.C35_heap_shape', 'ParsecVerif.C35.C35_heap_leftComplete', 'ParsecVerif.C35.C35_heap_nav_defined',
             'ParsecVerif.C35.C35_heap_insert_defined', 'ParsecVerif.C35.C35_heap_order', 'ParsecVerif.C35.C35_heap_conservation',
             'ParsecVerif.C35.C35_heap_returns_top', 'ParsecVerif.C35.C35_split_sizes',
             'ParsecVerif.MaxHeap.pathBits_eq', 'ParsecVerif.MaxHeap.hiBit_eq', 'ParsecVerif.MaxHeap.splitSizes_eq']
@@ -18,7 +18,7 @@ LEVEL_TEXT = ('Lean 4 theorems. Buffers (model: one step per shared-memory acces
               'buffer content, every program of push_all / push_all_by_priority / pop_best per thread and EVERY interleaving, slots + parent store + tasks in the locals of running operations + tasks in the callers\' hands '
               'is constant as a multiset (nothing lost, nothing duplicated; overflow is handed to the parent store); C35_hbb_never_lost: the quiescent corollary; C35_hbb_best: a pop_best that runs alone '
               'returns a task of maximal priority, the one at the lowest index among equals, empties exactly that slot, and returns NULL iff the buffer is empty. Heaps (sequential, as the API requires): for every script of '
-              'heap_create / heap_insert / heap_remove / heap_split_and_steal calls on a pool of heaps (fewer than 2^32 calls): C35_heap_shape: every live heap is the left-complete tree with exactly `size` nodes, hence '
+              'heap_create / heap_insert / heap_remove / heap_split_and_steal calls on a pool of heaps (fewer than 2^32 calls): C35_heap_shape / C35_heap_leftComplete: every live heap is the left-complete tree with exactly `size` nodes (also in the textbook recursive form: perfect above the last level, last level filled from the left), hence '
               '(C35_heap_nav_defined, C35_heap_insert_defined) the navigation by the bits of `size` never leaves the tree; C35_heap_order: the top has the highest priority and heap->priority equals it; '
               'C35_heap_conservation: heaps + returned = inserted as multisets; C35_heap_returns_top: remove and split return the top = a maximal task and remove exactly it; C35_split_sizes: the hiBit/twoBit size formulas '
               'equal the real subtree sizes. The integer helpers are modelled literally (or/shift cascade of hiBit, ~highBit & size on 32 bits, the bitmask loops) and proved equal to their meaning (hiBit_eq, splitSizes_eq, pathBits_eq). '
@@ -289,6 +289,11 @@ def bseq_oracle(ops, impl):
                     fails.append('%s: distance != 0 must hand the whole ring to the parent and leave the buffer alone (%s)' % (o, r))
                 if int(w[1]) == 0 and up and 0 in ns:
                     fails.append('%s: tasks went to the parent store although a slot is free (%s)' % (o, r))
+                if w[0] == 'by' and int(w[1]) == 0 and up and all(prio[a] >= prio[b] for a, b in zip(ring, ring[1:])):
+                    # "prefer the best": for a ring in the documented order (decreasing priority) what overflows is never better than what stays
+                    if max(prio[x] for x in up) > min(prio[x] for x in ns if x):
+                        fails.append('%s: a task of priority %d was sent to the parent while a task of priority %d stays in the buffer (%s)' % (
+                            o, max(prio[x] for x in up), min(prio[x] for x in ns if x), r))
                 if any(d != int(w[1]) - 1 for d, _ in calls):
                     fails.append('%s: parent called with distance %s' % (o, [d for d, _ in calls]))
                 hand -= set(ring); slots = ns; parent += up
@@ -369,7 +374,9 @@ def small_bcases(ctx):
     ]
     if not q:
         cs += [('2 P 1 2 3 4 S 0 0 T 1,2 y:0:2,1 T 3,4 y:0:4,3 T - o', 300000),
-               ('3 P 3 1 2 9 S 1 2 3 T 4 y:0:4 T - o o', 300000)]
+               ('3 P 3 1 2 9 S 1 2 3 T 4 y:0:4 T - o o', 300000),
+               ('2 P 5 3 9 1 7 S 1 2 T 3,5 y:0:3 y:0:5 T 4 y:0:4 o T - o o', 300000),          # 2324 schedules
+               ('2 P 1 2 3 4 5 6 S 0 0 T 1,2 a:0:1,2 o T 3,4 y:0:4,3 o T 5,6 a:0:5 y:0:6', 20000)]   # 44525 schedules: a prefix
     return cs
 
 
@@ -456,8 +463,6 @@ def run_bbatch(exe, lines, driver_ok, timeout):
     rc, text, err = pv.sh([exe], input='\n'.join(lines) + '\n', timeout=timeout)
     ops, impl, stats, viols = pv.parse_transcript(text)
     out['stats'] = stats
-    for v in viols:
-        out['viol'].append({'key': 'C35-harness-audit', 'what': v, 'case': v})
     if rc != 0:
         out['viol'].append({'key': 'C35-harness-exit-%d' % rc, 'what': 'harness exited with %d after %d lines; last op: %s; stderr: %s' % (
             rc, len(ops), ops[-1] if ops else None, err[-600:]), 'case': lines[0] if lines else ''})
@@ -509,6 +514,9 @@ def run_bbatch(exe, lines, driver_ok, timeout):
             out['keys'].add(zlib.crc32(replay.encode()))
             if len(out['samples']) < 1 and len(steps) > 8:
                 out['samples'].append({'case': replay, 'rets': rets, 'final': final})
+    if not out['viol']:     # harness-side audit (covers the free-running rounds, which have no replayable schedule)
+        for v in viols[:3]:
+            out['viol'].append({'key': 'C35-harness-audit', 'what': v, 'case': v})
     return out
 
 
@@ -537,8 +545,6 @@ def eval_scripts(exe_a, scripts, driver_ok, env):
         return out
     hist = out['hist']
     results, stats, viols, (rc, err) = pv.run_script(exe_a, 'pv_C35', scripts, env=env, use_driver=driver_ok, timeout=3000)
-    for v in viols:
-        out['viol'].append({'key': 'C35-harness-audit', 'what': v, 'case': v})
     for k, r in enumerate(results):
         out['evals'] += 1
         for o in r['ops']:
@@ -552,12 +558,12 @@ def eval_scripts(exe_a, scripts, driver_ok, env):
             def failing(ops):
                 rr = pv.run_script(exe_a, 'pv_C35', [ops], env=env, use_driver=False, timeout=60)[0][0]
                 return rr['crashed'] or bool(script_fails(ops, rr['impl']))
-            small = pv.ddmin(r['ops'], failing)
+            small = pv.ddmin(r['ops'], failing, max_tests=120)
             rr = pv.run_script(exe_a, 'pv_C35', [small], env=env, use_driver=False, timeout=60)[0][0]
             sf = script_fails(small, rr['impl']) or fails
             out['viol'].append({'key': ' ; '.join(small), 'what': sf[0], 'case': small, 'all_failures': sf[:5]})
-        if driver_ok and r['impl'] != r['model']:
-            small = pv.ddmin(r['ops'], lambda ops: pv.case_disagrees(exe_a, 'pv_C35', ops, env=env))
+        if driver_ok and r['impl'] != r['model'] and not fails:
+            small = pv.ddmin(r['ops'], lambda ops: pv.case_disagrees(exe_a, 'pv_C35', ops, env=env), max_tests=120)
             rs = pv.run_script(exe_a, 'pv_C35', [small], env=env, timeout=60)[0][0]
             out['dis'].append({'case': small, 'impl': rs['impl'], 'model': rs['model']})
         ops = r['ops']
@@ -567,8 +573,11 @@ def eval_scripts(exe_a, scripts, driver_ok, env):
             nontriv = sum(1 for o in ops if o.startswith('hins')) >= 8 and any(o.startswith('hsplit') and ' | ' in i and not i.endswith('| -') for o, i in zip(ops, r['impl']))
         if nontriv:
             out['keys'].add('%08x' % zlib.crc32(' ; '.join(ops).encode()))
-        if len(out['viol']) + len(out['dis']) >= 5:
+        if len(out['viol']) + len(out['dis']) >= 2:
             break
+    if not out['viol']:     # the harness-side audit as a fallback (the Python oracle gives the replayable script)
+        for v in viols[:3]:
+            out['viol'].append({'key': 'C35-harness-audit', 'what': v, 'case': v})
     out['traces'] = len(results) if driver_ok else 0
     out['samples'] = [{'ops': r['ops'][:14], 'impl': r['impl'][:14]} for r in results[-1:]]
     return out
